@@ -64,6 +64,72 @@ _HELPER_CALL = (
     "                # Test if there is a match with this path with a\n"
 )
 
+# the slash-fallback loop of the base case, as written today ...
+_SLASH_LOOP = (
+    "                if \"\" in state.static:\n"
+    "                    for rule in state.static[\"\"].rules:\n"
+    "                        if websocket == rule.websocket and (\n"
+    "                            rule.methods is None or method in rule.methods\n"
+    "                        ):\n"
+    "                            if rule.strict_slashes:\n"
+    "                                raise SlashRequired()\n"
+    "                            else:\n"
+    "                                return rule, values\n"
+    "                        elif (\n"
+    "                            not rule.strict_slashes\n"
+    "                            and rule.methods is not None\n"
+    "                            and method not in rule.methods\n"
+    "                        ):\n"
+    "                            have_match_for.update(rule.methods)\n"
+    "                return None\n"
+)
+# ... and restructured: dict.get + early return, the method test in a local flag, the methods in a local alias
+_SLASH_LOOP_FLAG = (
+    "                slash_state = state.static.get(\"\")\n"
+    "                if slash_state is None:\n"
+    "                    return None\n"
+    "                for rule in slash_state.rules:\n"
+    "                    allowed = rule.methods\n"
+    "                    method_ok = allowed is None or method in allowed\n"
+    "                    if websocket == rule.websocket and method_ok:\n"
+    "                        if rule.strict_slashes:\n"
+    "                            raise SlashRequired()\n"
+    "                        return rule, values\n"
+    "                    if not rule.strict_slashes and not method_ok:\n"
+    "                        have_match_for.update(allowed)\n"
+    "                return None\n"
+)
+_W_INNER = (
+    "                    weight = Weighting(\n"
+    "                        -len(static_weights),\n"
+    "                        static_weights,\n"
+    "                        -len(argument_weights),\n"
+    "                        argument_weights,\n"
+    "                    )\n"
+)
+_W_OUTER = (
+    "        weight = Weighting(\n"
+    "            -len(static_weights),\n"
+    "            static_weights,\n"
+    "            -len(argument_weights),\n"
+    "            argument_weights,\n"
+    "        )\n"
+)
+_W_HELPER_AT = "def _pythonize(value: str) -> None | bool | int | float | str:\n"
+_W_HELPER = (
+    "def _part_weighting(literals: list[tuple[int, int]], converters: list[int]) -> Weighting:\n"
+    "    return Weighting(-len(literals), literals, -len(converters), converters)\n"
+    "\n"
+    "\n" + _W_HELPER_AT
+)
+_W_HELPER_EDITS = [
+    (R, _W_INNER, "                    weight = _part_weighting(static_weights, argument_weights)\n"),
+    (R, _W_OUTER, "        weight = _part_weighting(static_weights, argument_weights)\n"),
+]
+_MERGE_GATE = "        if self.merge_slashes and rv is None:\n"
+_MERGE_STMT = "            path = re.sub(\"/{2,}?\", \"/\", path)\n"
+_FIRST_TRY = "        try:\n            rv = _match(self._root, [domain, *path.split(\"/\")], [])\n        except SlashRequired:\n            raise RequestPath(f\"{path}/\") from None\n\n        if self.merge_slashes"
+
 MUTANTS = [
     # ---- R3.1 priority order
     {"name": "dynamic-tried-before-static", "expect": "R3.1", "edits": [
@@ -117,6 +183,16 @@ MUTANTS = [
     {"name": "argument-weights-reset-forgotten", "expect": "R3.5", "edits": [(R, "                    argument_weights = []\n                    static_weights = []\n", "                    static_weights = []\n")]},
     {"name": "one-fresh-list-for-both-weight-lists", "expect": "R3.5", "edits": [(R, "                    argument_weights = []\n                    static_weights = []\n", "                    argument_weights = static_weights = []\n")]},
     {"name": "argument-weights-del-slice", "expect": "R3.5", "edits": [(R, "                    argument_weights = []\n                    static_weights = []\n", "                    del argument_weights[:]\n                    static_weights = []\n")]},
+    # ---- restructured code (flag / alias / helper) with a defect in it
+    {"name": "flag-style-fallback-records-strict-rules", "expect": "R3.2", "edits": [(M, _SLASH_LOOP, _SLASH_LOOP_FLAG.replace("if not rule.strict_slashes and not method_ok:", "if not method_ok:"))]},
+    {"name": "flag-style-fallback-flag-ignores-unrestricted-rules", "expect": "R3.2", "edits": [(M, _SLASH_LOOP, _SLASH_LOOP_FLAG.replace("method_ok = allowed is None or method in allowed", "method_ok = allowed is not None and method in allowed"))]},
+    {"name": "weighting-helper-stores-literal-list-twice", "expect": "R3.1", "edits": [*_W_HELPER_EDITS, (R, _W_HELPER_AT, _W_HELPER.replace("-len(converters), converters)", "-len(converters), literals)"))]},
+    {"name": "weighting-helper-and-reset-forgotten", "expect": "R3.5", "edits": [*_W_HELPER_EDITS, (R, _W_HELPER_AT, _W_HELPER), (R, "                    argument_weights = []\n                    static_weights = []\n", "                    static_weights = []\n")]},
+    # ---- R3.6
+    {"name": "retry-not-gated-on-map-flag", "expect": "R3.6", "edits": [(M, _MERGE_GATE, "        if rv is None:\n")]},
+    {"name": "retry-gate-inverted", "expect": "R3.6", "edits": [(M, _MERGE_GATE, "        if not self.merge_slashes and rv is None:\n")]},
+    {"name": "slashes-merged-before-first-attempt", "expect": "R3.6", "edits": [(M, _FIRST_TRY, "        path = re.sub(\"/{2,}?\", \"/\", path)\n" + _FIRST_TRY), (M, _MERGE_STMT, "")]},
+    {"name": "merged-path-bound-early-retry-ungated", "expect": "R3.6", "edits": [(M, _MERGE_GATE, "        merged = re.sub(\"/{2,}?\", \"/\", path)\n        if rv is None and merged != path:\n"), (M, _MERGE_STMT, "            path = merged\n")]},
 ]
 
 TWINS = [
@@ -162,4 +238,20 @@ TWINS = [
     {"name": "wider-except-around-to-python", "edits": [(M, "                except ValidationError:\n", "                except ValueError:\n")]},
     {"name": "map-update-single-guard", "edits": [(P, "        if not self._remap:\n            return\n\n        with self._remap_lock:\n            if not self._remap:\n                return\n\n            self._matcher.update()", "        with self._remap_lock:\n            if self._remap is False:\n                return\n\n            self._matcher.update()")]},
     {"name": "weighting-by-keyword", "edits": [(R, "        weight = Weighting(\n            -len(static_weights),\n            static_weights,\n            -len(argument_weights),\n            argument_weights,\n        )", "        weight = Weighting(\n            argument_weights=argument_weights,\n            number_argument_weights=-len(argument_weights),\n            static_weights=static_weights,\n            number_static_weights=-len(static_weights),\n        )")]},
+    # ---- restructurings found by independent neutral refactorings
+    {"name": "fallback-loop-flag-alias-early-return", "edits": [(M, _SLASH_LOOP, _SLASH_LOOP_FLAG)]},
+    {"name": "weighting-built-by-module-helper", "edits": [*_W_HELPER_EDITS, (R, _W_HELPER_AT, _W_HELPER)]},
+    {"name": "weighting-built-by-closure", "edits": [
+        (R, _W_INNER, "                    weight = _weigh()\n"), (R, _W_OUTER, "        weight = _weigh()\n"),
+        (R, "        pos = 0\n        while pos < len(rule):\n", "        def _weigh() -> Weighting:\n            return Weighting(-len(static_weights), static_weights, -len(argument_weights), argument_weights)\n\n        pos = 0\n        while pos < len(rule):\n")]},
+    {"name": "merged-path-computed-above-the-gate", "edits": [(M, _MERGE_GATE, "        merged = re.sub(\"/{2,}?\", \"/\", path)\n" + _MERGE_GATE), (M, _MERGE_STMT, "            path = merged\n")]},
+    {"name": "merge-gate-as-early-exit-with-alias", "edits": [(M, _MERGE_GATE + "            # Try to match again, but with slashes merged\n", "        if rv is None:\n            merge = self.merge_slashes\n            if merge is False:\n                raise NoMatch(have_match_for, websocket_mismatch)\n"), (M, "        elif rv is not None:\n            rule, values = rv\n", "        else:\n            rule, values = rv\n")]},
+    {"name": "precompiled-merge-pattern", "edits": [(M, _MERGE_STMT, "            path = re.compile(\"/{2,}\").sub(\"/\", path)\n")]},
+    {"name": "static-attempt-through-dict-get", "edits": [(M, _STATIC_BLOCK,
+        "            static_next = state.static.get(part)\n"
+        "            if static_next is not None:\n"
+        "                rv = _match(static_next, parts[1:], values)\n"
+        "                if rv is not None:\n"
+        "                    return rv\n")]},
+    {"name": "argument-weight-through-local-and-augassign", "edits": [(R, "                argument_weights.append(convobj.weight)\n", "                conv_weight = convobj.weight\n                argument_weights += [conv_weight]\n")]},
 ]
